@@ -60,24 +60,24 @@ type nodeCfg struct {
 	maxUtp   int
 	queueCap int
 	// storage
-	capacityMB uint64
-	useMock    bool
-	fs         vfs.FS // nil => fresh MemFS
-	boot       []*enode.Node
-	networks   []string
+	capacityMB   uint64
+	useMock      bool
+	fs           vfs.FS // nil => fresh MemFS
+	boot         []*enode.Node
+	networks     []string
 	noQueueDrain bool
 }
 
 // baseNode is the part shared by full nodes and puppets: socket, discv5, uTP.
 type baseNode struct {
-	w    *world
-	cfg  nodeCfg
-	sock *simSock
-	ln   *enode.LocalNode
-	db   *enode.DB
-	disc *discover.UDPv5
-	utp  *portalwire.UtpTransportService
-	pcfg *portalwire.PortalProtocolConfig
+	w      *world
+	cfg    nodeCfg
+	sock   *simSock
+	ln     *enode.LocalNode
+	db     *enode.DB
+	disc   *discover.UDPv5
+	utp    *portalwire.UtpTransportService
+	pcfg   *portalwire.PortalProtocolConfig
 	vcache cache.Cache[*enode.Node, uint8]
 }
 
@@ -136,7 +136,6 @@ func (w *world) newBase(cfg nodeCfg) *baseNode {
 	b.vcache = cache.NewCache[*enode.Node, uint8]().WithMaxKeys(pcfg.VersionsCacheSize).WithTTL(pcfg.VersionsCacheTTL)
 	return b
 }
-
 
 // proto is one sub-protocol instance of a full node.
 type proto struct {
